@@ -234,7 +234,9 @@ def outcome_call(result, test, op, shared=None):
     ``shared`` (a dict owned by the caller, one per history) makes the reporter behave like code that keeps one
     details dict per distinct set of attachments and hands the *same object* to several outcome calls.  The
     description returned always holds a private copy taken before the call, so whatever the code under test does
-    to the dict it was given cannot rewrite the oracle's expectation - but it does reach the next call."""
+    to the dict it was given cannot rewrite the oracle's expectation - but it does reach the next call.
+    ``shared={"<refill>": {}}`` is the other economy: one dict object for the whole history, emptied and
+    refilled before every outcome."""
     from testtools.content import text_content
     kind, p = op["kind"], op["payload"]
     m = getattr(result, METHOD[kind])
@@ -244,6 +246,13 @@ def outcome_call(result, test, op, shared=None):
     def make_details_(dspec):
         if shared is None:
             return _plain_make(dspec)
+        if "<refill>" in shared:
+            # a reporter that owns one dict and refills it for every outcome (or whose dicts are freed and
+            # their addresses recycled): the object is the same, what it holds is not
+            d = shared["<refill>"]
+            d.clear()
+            d.update(_plain_make(dspec))
+            return d
         key = repr(sorted(dspec.items()))
         if key not in shared:
             shared[key] = _plain_make(dspec)
